@@ -33,6 +33,7 @@ import E2P.Model.Safety
 import E2P.Model.Ops
 import E2P.Model.Criteria
 import E2P.Generated.RuntimeConsts
+import E2P.Model.Lex
 open E2P
 
 def optB : Option Bool → String
@@ -527,6 +528,70 @@ def handlePeg (args : List String) : String :=
       s!"{m} | - | "
   | _ => "bad-op"
 
+/-! lexer: `lx <S text>` (Lexer.parse), `lt <class> <S text>` (one class's `get`), `lp <S text>` (lex, then the token-set parser) -/
+def lexTable : List (String × Lex.Scanner) := Lex.table E2P.Generated.lexerOrder E2P.Generated.lexerRegexes
+
+def encTitle (t : Option (List Char)) : String := match t with | some t => encStr t | none => "@"
+def encRef (c : Lex.RefCell) : String := s!"{encTitle c.title} {encStr c.col} {encStr c.row}"
+
+def handleLex (args : List String) : String :=
+  match args with
+  | [t] =>
+    match decVal [t] with
+    | some (.str s, []) =>
+      let m := match Lex.lex lexTable s with
+        | .ok toks => " ".intercalate ("OK" :: toks.map fun (tk : Tok) => tk.1 ++ "=" ++ encStr tk.2.toList)
+        | .undefined _ => "EUndefined"
+        | .tooLarge => "ETooLarge"
+        | .unsupported => "EUnmodelled"
+        | .spin => "ESpin"
+        | .fuel => "EFuel"
+      s!"{m} | - | "
+    | _ => "bad-op"
+  | _ => "bad-op"
+
+def handleLexTok (args : List String) : String :=
+  match args with
+  | [cls, t] =>
+    match decVal [t] with
+    | some (.str s, []) =>
+      let m := match cls with
+        | "CellIdentifierToken" => (match Lex.cellTok s with | some (c, rest) => s!"{encRef c} {encStr rest}" | none => "NONE")
+        | "MatrixOfCellIdentifiersToken" => (match Lex.matrixTok s with | some ((a, b), rest) => s!"{encRef a} {encRef b} {encStr rest}" | none => "NONE")
+        | "CellIdentifierRangeToken" => (match Lex.rangeTok s with | some ((a, b), rest) => s!"{encRef a} {encRef b} {encStr rest}" | none => "NONE")
+        | "PatternToken" => (match Lex.patternTok s with | some (b, rest) => s!"{encStr b} {encStr rest}" | none => "NONE")
+        | "LiteralToken" => (match Lex.literalTok s with
+            | some (.str raw, rest) => s!"str {encStr (Lex.undouble '"' raw)} {encStr rest}"
+            | some (.num _ _ _ _ _, rest) => s!"num {encStr rest}"
+            | some (.tru, rest) => s!"true {encStr rest}"
+            | some (.fls, rest) => s!"false {encStr rest}"
+            | none => "NONE")
+        | other => (match Lex.scannerOf E2P.Generated.lexerRegexes other with
+            | .alts as => (match Lex.matchAlts as s with | some rest => encStr rest | none => "NONE")
+            | _ => "EUnmodelled")
+      s!"{m} | - | "
+    | _ => "bad-op"
+  | _ => "bad-op"
+
+def handleLexParse (args : List String) : String :=
+  match args with
+  | [t] =>
+    match decVal [t] with
+    | some (.str s, []) =>
+      let m := match Lex.lex lexTable s with
+        | .ok toks => (match astBuild genGrammar (6 * toks.length + 6) "EntryPointToken" toks with
+            | .accept t => "A " ++ t.sexp
+            | .reject => "REJECT"
+            | .depth => "EDepth")
+        | .undefined _ => "EUndefined"
+        | .tooLarge => "ETooLarge"
+        | .unsupported => "EUnmodelled"
+        | .spin => "ESpin"
+        | .fuel => "EFuel"
+      s!"{m} | - | "
+    | _ => "bad-op"
+  | _ => "bad-op"
+
 /-! quoting: `qt <S-encoded text>` → model = repr(text) (S-encoded), flag rt-bad if the model's own round trip fails -/
 def handleQuote (args : List String) : String :=
   match args with
@@ -803,6 +868,9 @@ def handle (line : String) : String :=
   | "cr" :: rest => handleCrit rest
   | "ci" :: rest => handleCondAgg rest
   | "sk" :: rest => handleSafetyKey rest
+  | "lx" :: rest => handleLex rest
+  | "lt" :: rest => handleLexTok rest
+  | "lp" :: rest => handleLexParse rest
   | _ => "bad-op"
 
 partial def loop (h : IO.FS.Stream) (out : IO.FS.Stream) : IO Unit := do
